@@ -103,7 +103,7 @@ func childC07(a []string) string {
 		out.Flush()
 		var m0, m1 runtime.MemStats
 		runtime.ReadMemStats(&m0)
-		t0 := time.Now()
+		t0 := cpuMicros()
 		class := func() (c string) {
 			defer func() {
 				if r := recover(); r != nil {
@@ -112,13 +112,24 @@ func childC07(a []string) string {
 			}()
 			return runEntry(w[0], data)
 		}()
-		d := time.Since(t0)
+		d := cpuMicros() - t0
 		runtime.ReadMemStats(&m1)
-		fmt.Fprintf(out, "DONE %d %s %d %d\n", i, class, m1.TotalAlloc-m0.TotalAlloc, d.Microseconds())
+		fmt.Fprintf(out, "DONE %d %s %d %d\n", i, class, m1.TotalAlloc-m0.TotalAlloc, d)
 		out.Flush()
 		i++
 	}
 	return "end"
+}
+
+// cpuMicros: the processor time this process has used (user + system).  The budget of an input is
+// measured in processor time, not in wall-clock time: the verdict must not depend on what else the
+// machine is doing.
+func cpuMicros() int64 {
+	var ru syscall.Rusage
+	if err := syscall.Getrusage(syscall.RUSAGE_SELF, &ru); err != nil {
+		return time.Now().UnixNano() / 1000
+	}
+	return ru.Utime.Sec*1e6 + int64(ru.Utime.Usec) + ru.Stime.Sec*1e6 + int64(ru.Stime.Usec)
 }
 
 type c07Result struct {
